@@ -41,9 +41,25 @@ import (
 )
 
 type c17rCase struct {
-	Proto  string          `json:"proto"`  // h1 | h2tls | h2c
-	Script string          `json:"script"` // letters, see above
-	Raw    json.RawMessage `json:"raw"`    // protojson RawHTTPResponse
+	Proto  string          `json:"proto"`            // h1 | h2tls | h2c
+	Script string          `json:"script"`           // letters, see above
+	Preset bool            `json:"preset,omitempty"` // outer middleware pre-sets c17lib.PresetHeaders before rawResponder runs
+	Raw    json.RawMessage `json:"raw"`              // protojson RawHTTPResponse
+}
+
+// c17rOuter is a trivial middleware in FRONT of rawResponder (the position of
+// CORS / tracing in createServer): when the request asks for it, it puts
+// c17lib.PresetHeaders on the response before calling next, so rawResponder is
+// entered with a non-empty header map ("pre-set header by outer middleware").
+func c17rOuter(next http.Handler) http.Handler {
+	return http.HandlerFunc(func(w http.ResponseWriter, req *http.Request) {
+		if req.Header.Get("X-C17-Preset") != "" {
+			for name, vals := range c17lib.PresetHeaders {
+				w.Header()[name] = append([]string(nil), vals...)
+			}
+		}
+		next.ServeHTTP(w, req)
+	})
 }
 
 type c17rLive struct {
@@ -149,7 +165,7 @@ type c17rObs struct {
 
 var c17rSeq int64
 
-func c17rRun(srv *c17rServer, script string, raw *conformancev1.RawHTTPResponse) c17rObs {
+func c17rRun(srv *c17rServer, script string, preset bool, raw *conformancev1.RawHTTPResponse) c17rObs {
 	c17rSeq++
 	id := strconv.FormatInt(c17rSeq, 10)
 	live := &c17rLive{script: script, raw: raw}
@@ -164,6 +180,9 @@ func c17rRun(srv *c17rServer, script string, raw *conformancev1.RawHTTPResponse)
 		return obs
 	}
 	req.Header.Set("X-C17-Case", id)
+	if preset {
+		req.Header.Set("X-C17-Preset", "1")
+	}
 	req.Header.Set("Content-Type", "application/octet-stream")
 	resp, err := srv.client.Do(req)
 	if err != nil {
@@ -243,7 +262,15 @@ func c17rBodyAllowed(status int) bool {
 	return !(status == 204 || status == 304 || (status >= 100 && status < 200))
 }
 
-func c17rJudge(script string, raw *conformancev1.RawHTTPResponse, obs c17rObs) (out []c17rVerdict) {
+// c17rSuppressed: headers that net/http's HTTP/1.1 server removes from a
+// response by itself (server.go, suppressedHeaders): Content-Type on a 304.
+// rawResponder cannot send them through this transport; they are not demanded.
+func c17rSuppressed(h2 bool, status int, name string) bool {
+	return !h2 && status == 304 && name == "Content-Type"
+}
+
+func c17rJudge(protoName, script string, preset bool, raw *conformancev1.RawHTTPResponse, obs c17rObs) (out []c17rVerdict) {
+	h2 := protoName != "h1"
 	add := func(key, format string, a ...any) {
 		out = append(out, c17rVerdict{key, fmt.Sprintf(format, a...)})
 	}
@@ -278,6 +305,17 @@ func c17rJudge(script string, raw *conformancev1.RawHTTPResponse, obs c17rObs) (
 		hdrEntries, trlEntries := c17lib.Entries(raw.GetHeaders()), c17lib.Entries(raw.GetTrailers())
 		for name, vals := range rawHeaders {
 			// every given value, in list order - also when the name occurs in several entries
+			if c17rSuppressed(h2, wantStatus, name) {
+				continue
+			}
+			if preset && c17lib.PresetHeaders[name] != nil {
+				// the outer middleware had set this header before rawResponder ran: its
+				// values are tolerated, but every given value must be there, in list order
+				if got := obs.Header.Values(name); !c17lib.Subsequence(vals, got) {
+					add("raw-response:middleware-header-clobbers-given", "header %s (pre-set to %q by middleware in front of rawResponder): got %q, which does not contain the specified values %q in list order", name, c17lib.PresetHeaders[name], got, vals)
+				}
+				continue
+			}
 			if got := obs.Header.Values(name); !c17lib.EqualStrings(got, vals) {
 				if hdrEntries[name] > 1 {
 					add("raw-response:header-named-in-several-entries", "header %s is named in %d entries of the list: got %q, specified %q (all values, in list order)", name, hdrEntries[name], got, vals)
@@ -303,13 +341,19 @@ func c17rJudge(script string, raw *conformancev1.RawHTTPResponse, obs c17rObs) (
 		if bytes.Contains(obs.Body, []byte(c17rHandlerBody)) { // no payload of the alphabet contains this marker
 			add("raw-response:handler-body-leaks", "handler body bytes in the raw response body %q", obs.Body)
 		}
-		if c17rBodyAllowed(wantStatus) {
+		bodyAllowed := c17rBodyAllowed(wantStatus)
+		// A 204 / 304 response has no body, and over HTTP/1.1 therefore no
+		// trailers either; over HTTP/2 the trailers are a HEADERS frame of
+		// their own and are demanded as for any other status.
+		if bodyAllowed || h2 {
 			for name, vals := range rawTrailers {
 				got := obs.Trailer.Values(name)
 				switch {
 				case c17lib.EqualStrings(got, vals):
 				case len(rawHeaders[name]) > 0 && c17lib.EqualStrings(got, append(append([]string{}, vals...), rawHeaders[name]...)):
 					add("raw-response:trailer-repeats-header-values", "trailer %s: got %q, specified %q: the values of the response HEADER of the same name were sent again as trailer values", name, got, vals)
+				case !bodyAllowed && len(got) < len(vals):
+					add("raw-response:trailer-missing-on-bodyless-status", "status %d (no body possible) over %s: trailer %s: got %q, specified %q (all trailers received: %v)", wantStatus, obs.Proto, name, got, vals, obs.Trailer)
 				case trlEntries[name] > 1:
 					add("raw-response:trailer-named-in-several-entries", "trailer %s is named in %d entries of the list: got %q, specified %q (all values, in list order; all trailers received: %v)", name, trlEntries[name], got, vals, obs.Trailer)
 				case len(got) < len(vals):
@@ -318,6 +362,8 @@ func c17rJudge(script string, raw *conformancev1.RawHTTPResponse, obs c17rObs) (
 					add("raw-response:trailer-wrong", "trailer %s: got %q, specified %q (all trailers received: %v)", name, got, vals, obs.Trailer)
 				}
 			}
+		}
+		if bodyAllowed {
 			switch b := raw.GetBody().(type) {
 			case nil:
 				if len(obs.Body) != 0 {
@@ -361,7 +407,18 @@ func c17rJudge(script string, raw *conformancev1.RawHTTPResponse, obs c17rObs) (
 			}
 			continue
 		}
-		if got := obs.Header.Values(name); len(got) > 0 {
+		got := obs.Header.Values(name)
+		if preset && c17lib.PresetHeaders[name] != nil {
+			// the outer middleware's own values are expected here, the raw ones are not
+			var foreign []string
+			for _, v := range got {
+				if !c17rContains(c17lib.PresetHeaders[name], v) {
+					foreign = append(foreign, v)
+				}
+			}
+			got = foreign
+		}
+		if len(got) > 0 {
 			add("normal-response:raw-header-leaks", "raw header %s=%q present although the raw response was not chosen", name, got)
 		}
 	}
@@ -371,6 +428,15 @@ func c17rJudge(script string, raw *conformancev1.RawHTTPResponse, obs c17rObs) (
 		}
 	}
 	return out
+}
+
+func c17rContains(list []string, v string) bool {
+	for _, x := range list {
+		if x == v {
+			return true
+		}
+	}
+	return false
 }
 
 // ---------------------------------------------------------------------------
@@ -405,13 +471,17 @@ type c17rEnv struct {
 	trailers []*conformancev1.Header
 }
 
+// c17rStatuses: unset, ordinary statuses, and the two final statuses for which
+// HTTP forbids a body (the server's ResponseWriter refuses every body byte).
+var c17rStatuses = []uint32{0, 200, 204, 304, 404, 500}
+
 func c17rEnvs(full bool, level int) []c17rEnv {
 	var out []c17rEnv
 	if !full {
 		hl, tl := c17lib.HeaderLists(0), c17lib.TrailerLists(0)
 		if level == 0 {
 			// hl[4], tl[3], tl[4]: a name in two entries of the list
-			return []c17rEnv{{0, nil, nil}, {0, hl[2], tl[2]}, {404, nil, tl[2]}, {404, hl[2], nil}, {0, hl[4], tl[3]}, {404, hl[3], tl[4]}}
+			return []c17rEnv{{0, nil, nil}, {0, hl[2], tl[2]}, {404, nil, tl[2]}, {404, hl[2], nil}, {0, hl[4], tl[3]}, {404, hl[3], tl[4]}, {304, hl[1], tl[1]}}
 		}
 		for _, st := range []uint32{0, 404} {
 			for _, h := range [][]*conformancev1.Header{hl[0], hl[2]} {
@@ -422,9 +492,12 @@ func c17rEnvs(full bool, level int) []c17rEnv {
 		}
 		// a name in two entries of the header / trailer list (same spelling, case variants)
 		out = append(out, c17rEnv{0, hl[4], tl[3]}, c17rEnv{404, hl[3], tl[4]}, c17rEnv{0, nil, tl[3]}, c17rEnv{404, hl[4], nil})
+		// statuses that cannot carry a body (the body write is refused by the
+		// http.ResponseWriter) with and without trailers
+		out = append(out, c17rEnv{204, hl[1], tl[2]}, c17rEnv{304, hl[2], tl[1]}, c17rEnv{204, nil, tl[3]}, c17rEnv{304, hl[4], tl[4]}, c17rEnv{304, nil, nil})
 		return out
 	}
-	for _, st := range []uint32{0, 200, 204, 404, 500} {
+	for _, st := range c17rStatuses {
 		for _, h := range c17lib.HeaderLists(level) {
 			for _, tr := range c17lib.TrailerLists(level) {
 				out = append(out, c17rEnv{st, h, tr})
@@ -457,7 +530,10 @@ var c17rProtos = []string{"h1", "h2tls", "h2c"}
 // grid S: every handler script x a few definitions; grid E: every status x
 // header list x trailer list x a medium body set x a few scripts; grid B: the
 // full body alphabet x a few status/header/trailer combinations x two scripts.
-func c17rEnumerate(thorough bool, visit func(grid, proto, script string, raw *conformancev1.RawHTTPResponse) bool) {
+func c17rEnumerate(thorough bool, visit0 func(grid, proto, script string, preset bool, raw *conformancev1.RawHTTPResponse) bool) {
+	visit := func(grid, proto, script string, raw *conformancev1.RawHTTPResponse) bool {
+		return visit0(grid, proto, script, false, raw)
+	}
 	scriptLen := 3
 	if thorough {
 		scriptLen = 4
@@ -468,7 +544,8 @@ func c17rEnumerate(thorough bool, visit func(grid, proto, script string, raw *co
 		{0, nil, nil},
 		{404, c17lib.HeaderLists(0)[2], c17lib.TrailerLists(0)[2]},
 		{500, c17lib.HeaderLists(0)[3], c17lib.TrailerLists(0)[1]},
-		{204, c17lib.HeaderLists(0)[1], nil},
+		{204, c17lib.HeaderLists(0)[1], c17lib.TrailerLists(0)[2]},
+		{304, c17lib.HeaderLists(0)[3], c17lib.TrailerLists(0)[1]},
 	}
 	var repRaws []*conformancev1.RawHTTPResponse
 	for i, e := range repEnvs {
@@ -511,6 +588,39 @@ func c17rEnumerate(thorough bool, visit func(grid, proto, script string, raw *co
 			}
 		}
 	}
+	// grid P: an outer middleware has pre-set headers (c17lib.PresetHeaders) before
+	// rawResponder is entered; header lists that name those headers (and, as a
+	// control, the CORS names nobody pre-sets here), a trailer with the name of a
+	// pre-set header, bodyless statuses; scripts where the raw response wins and
+	// one where the handler wins
+	var pHeaders [][]*conformancev1.Header
+	pHeaders = append(pHeaders, c17lib.OuterHeaderLists(lvl)...)
+	pHeaders = append(pHeaders, nil, c17lib.HeaderLists(0)[4])
+	otl, tl := c17lib.OuterTrailerLists(lvl), c17lib.TrailerLists(0)
+	pRest := []c17rEnv{{0, nil, nil}, {404, nil, otl[1]}, {0, nil, tl[3]}, {204, nil, otl[2]}}
+	if thorough {
+		pRest = append(pRest, c17rEnv{304, nil, tl[3]}, c17rEnv{500, nil, otl[4]})
+	}
+	pScripts := []string{"R", "HTRWBF", "BR"}
+	pBodies := c17lib.Bodies(0)
+	if thorough {
+		pScripts = append(pScripts, "RHTWBF", "HR", "FR")
+		pBodies = c17lib.Bodies(1)
+	}
+	for _, h := range pHeaders {
+		for _, rest := range pRest {
+			for _, b := range pBodies {
+				raw := c17rMake(c17rEnv{rest.status, h, rest.trailers}, b)
+				for _, s := range pScripts {
+					for _, p := range c17rProtos {
+						if !visit0("P", p, s, true, raw) {
+							return
+						}
+					}
+				}
+			}
+		}
+	}
 	// grid B
 	if thorough {
 		for _, b := range c17lib.Bodies(2) {
@@ -531,9 +641,9 @@ func c17rEnumerate(thorough bool, visit func(grid, proto, script string, raw *co
 func TestVerifC17RawResponse(t *testing.T) {
 	r := rep.New("c17-rawresp")
 	defer r.Write()
-	r.Rule = "case = (protocol h1|h2tls|h2c) x (handler script over H,T,W,B,F,R) x (RawHTTPResponse: status x header list x trailer list (incl. lists that name the same header / trailer in two entries, same spelling or differing in case: all values demanded in list order) x body none|unary|stream); grid S = all scripts up to length 3 (quick) / 4 (thorough) x 8 definitions, grid E = all status x header x trailer combinations x medium body set x 2-4 scripts, grid B (thorough) = full body alphabet x 6 status/header/trailer combinations x 2 scripts; a case is non-trivial when distinct (proto, script, definition); oracle = reference arbitration model + independent body decoder on what a plain net/http client receives"
+	r.Rule = "case = (protocol h1|h2tls|h2c) x (handler script over H,T,W,B,F,R) x (outer middleware in front of rawResponder pre-sets headers: no|yes) x (RawHTTPResponse: status {unset,200,204,304,404,500} x header list x trailer list (incl. lists that name the same header / trailer in two entries, same spelling or differing in case: all values demanded in list order) x body none|unary|stream); grid S = all scripts up to length 3 (quick) / 4 (thorough) x 10 definitions, grid E = all status x header x trailer combinations x medium body set x 2-4 scripts, grid P = pre-set headers (Cache-Control, X-Raw-R) by an outer middleware x header lists that name the pre-set headers and the CORS names (one entry / two entries, case variants) x {trailers none, named like a pre-set header, status 204/304} x bodies x scripts where the raw response wins / the handler wins: every given value must be on the wire in list order (the middleware's own values are tolerated for the pre-set names only), grid B (thorough) = full body alphabet x 7 status/header/trailer combinations x 2 scripts; status 204/304: the ResponseWriter refuses the body, over HTTP/2 status, headers and TRAILERS are demanded, over HTTP/1.1 status and headers; a case is non-trivial when distinct (proto, script, preset, definition); oracle = reference arbitration model + independent body decoder on what a plain net/http client receives"
 
-	servers := c17rStart(rawResponder(http.HandlerFunc(c17rInner)))
+	servers := c17rStart(c17rOuter(rawResponder(http.HandlerFunc(c17rInner))))
 	defer func() {
 		for _, s := range servers {
 			s.client.CloseIdleConnections()
@@ -541,16 +651,16 @@ func TestVerifC17RawResponse(t *testing.T) {
 		}
 	}()
 
-	evalOne := func(protoName, script string, raw *conformancev1.RawHTTPResponse, verbose bool) []c17rVerdict {
+	evalOne := func(protoName, script string, preset bool, raw *conformancev1.RawHTTPResponse, verbose bool) []c17rVerdict {
 		srv := servers[protoName]
-		obs := c17rRun(srv, script, raw)
-		verdicts := c17rJudge(script, raw, obs)
+		obs := c17rRun(srv, script, preset, raw)
+		verdicts := c17rJudge(protoName, script, preset, raw, obs)
 		if len(verdicts) > 0 {
 			// alarm discipline: a failing case is executed again on a fresh
 			// connection; only what fails both times is reported
 			srv.client.CloseIdleConnections()
-			obs2 := c17rRun(srv, script, raw)
-			again := c17rJudge(script, raw, obs2)
+			obs2 := c17rRun(srv, script, preset, raw)
+			again := c17rJudge(protoName, script, preset, raw, obs2)
 			keys := map[string]bool{}
 			for _, v := range again {
 				keys[v.key] = true
@@ -589,7 +699,7 @@ func TestVerifC17RawResponse(t *testing.T) {
 		}
 		r.Outcome(cls)
 		if verbose {
-			fmt.Printf("replay: proto=%s script=%q raw=%s\nobserved: %+v\nbody=%x\nverdicts=%v\n", protoName, script, c17lib.JSON(raw), obs, obs.Body, verdicts)
+			fmt.Printf("replay: proto=%s script=%q preset=%v raw=%s\nobserved: %+v\nbody=%x\nverdicts=%v\n", protoName, script, preset, c17lib.JSON(raw), obs, obs.Body, verdicts)
 		}
 		return verdicts
 	}
@@ -609,7 +719,7 @@ func TestVerifC17RawResponse(t *testing.T) {
 		r.NonTrivial("")
 		r.NonTrivial("")
 		r.Sample(rj.Replay)
-		for _, v := range evalOne(rj.Replay.Proto, rj.Replay.Script, raw, true) {
+		for _, v := range evalOne(rj.Replay.Proto, rj.Replay.Script, rj.Replay.Preset, raw, true) {
 			r.Violate(v.key, v.detail, rj.Replay)
 		}
 		return
@@ -617,7 +727,7 @@ func TestVerifC17RawResponse(t *testing.T) {
 
 	deadline := rep.Deadline()
 	var k int64
-	c17rEnumerate(rep.Thorough(), func(grid, protoName, script string, raw *conformancev1.RawHTTPResponse) bool {
+	c17rEnumerate(rep.Thorough(), func(grid, protoName, script string, preset bool, raw *conformancev1.RawHTTPResponse) bool {
 		k++
 		if !r.Mine(k) {
 			return true
@@ -627,17 +737,17 @@ func TestVerifC17RawResponse(t *testing.T) {
 			return false
 		}
 		t0 := time.Now()
-		verdicts := evalOne(protoName, script, raw, false)
+		verdicts := evalOne(protoName, script, preset, raw, false)
 		r.Count("info-wall-us:"+protoName, time.Since(t0).Microseconds())
 		r.Eval(1)
 		r.Count("grid:"+grid, 1)
-		c := c17rCase{Proto: protoName, Script: script, Raw: c17lib.JSON(raw)}
-		r.NonTrivial(protoName + "|" + script + "|" + string(c.Raw))
+		c := c17rCase{Proto: protoName, Script: script, Preset: preset, Raw: c17lib.JSON(raw)}
+		r.NonTrivial(protoName + "|" + script + "|" + strconv.FormatBool(preset) + "|" + string(c.Raw))
 		if k%1009 == 1 {
 			r.Sample(c)
 		}
 		for _, v := range verdicts {
-			r.Violate(v.key, fmt.Sprintf("proto=%s handler-script=%q raw=%s: %s", protoName, script, c17lib.Short(raw), v.detail), c)
+			r.Violate(v.key, fmt.Sprintf("proto=%s handler-script=%q preset-by-outer-middleware=%v raw=%s: %s", protoName, script, preset, c17lib.Short(raw), v.detail), c)
 		}
 		return true
 	})
